@@ -421,6 +421,20 @@ def run(F, rep, tier):
             rep.ok('R5.8', fn, 'operands parsed by %s in a loop (%d call sites), no self-recursion' % (sub.rsplit('::', 1)[-1], len(subs)))
         else:
             rep.viol('R5.8', fn + '|layering', '%s parses an operand by calling itself or no longer loops over %s (self calls %d, %s calls %d): the grouping of and / or / coalesce chains changes' % (fn.rsplit('::', 1)[-1], sub.rsplit('::', 1)[-1], len(selfrec), sub.rsplit('::', 1)[-1], len(subs)), (selfrec or subs or [None])[0].loc() if (selfrec or subs) else None)
+    # ---------------- R5.10
+    rep.rule('R5.10', '`for .. yield e into first` stops at the first element: CataFirst::give ends the loop by returning Err(Break(0, Some(value))) '
+             '(the loop sites absorb Break(0), R5.4), so later iterations - their side effects, errors and non-termination - do not happen')
+    cf_ = [p_ for p_ in F.fns if 'CataFirst' in p_ and p_.endswith('::give')]
+    if not cf_:
+        rep.error('R5.10', 'CataFirst::give missing')
+    else:
+        gb_ = F.body(cf_[0])
+        brk = [(bb, s_) for bb, s_ in gb_.aggregates() if s_[2][2] == 'core::NErr' and s_[2][4] == 'Break']
+        oks = [(bb, s_) for bb, s_ in gb_.aggregates() if s_[1] == [0] and s_[2][2] == 'std::result::Result' and s_[2][4] == 'Ok']
+        if brk and not oks:
+            rep.ok('R5.10', 'CataFirst::give', 'always Err(Break(..)): the fold ends at the first element')
+        else:
+            rep.viol('R5.10', 'CataFirst::give|no-early-exit', '`into first` lets the loop run on after the first element (give returns Ok on %d path(s), builds Break %d time(s)): the iterations after the first still run, with their effects and errors' % (len(oks), len(brk)), gb_.loc(0))
     # ---------------- R5.9
     rep.rule('R5.9', '`for .. yield e into max|min` is the fold of the same function: CataExtremum::give replaces its incumbent under exactly the '
              'test Extremum::run uses (ncmp(candidate, incumbent) == bias; first of equal values wins; incomparable values raise)')
